@@ -114,6 +114,35 @@ func (e1Engine) Gen(prop string, seed int64, tier string) *Plan {
 			}
 		}
 		p.Steps = steps
+		// late patch (own stream): a node without any version that has the field merges a write of
+		// it, is patched afterwards, writes the field itself and sends that back
+		if rl := newRng(seed, 192); chance(rl, 5) {
+			x := p.Steps[0].A
+			y := mod(x+1, n)
+			late := []Step{
+				{K: "schema", A: x},
+				{K: "update", A: x, D: 8 | rl.IntN(8)},
+				{K: "sync", A: x, B: y},
+				{K: "schema", A: y},
+				{K: "update", A: y, D: 8 | rl.IntN(8)},
+				{K: "sync", A: y, B: x},
+			}
+			p.Steps = append(append([]Step{p.Steps[0]}, late...), p.Steps[1:]...)
+		} else if chance(rl, 5) {
+			// the same with a receiver that holds the version with the field without it being active
+			x := p.Steps[0].A
+			y := mod(x+1, n)
+			late := []Step{
+				{K: "schema", A: x},
+				{K: "schema", A: y, B: 1},
+				{K: "update", A: x, D: 8 | rl.IntN(8)},
+				{K: "sync", A: x, B: y},
+				{K: "schema", A: y, B: 2},
+				{K: "update", A: y, D: 8 | rl.IntN(8)},
+				{K: "sync", A: y, B: x},
+			}
+			p.Steps = append(append([]Step{p.Steps[0]}, late...), p.Steps[1:]...)
+		}
 	}
 	if p.Cfg["col"] == 1 {
 		// branchable collection: collection-level commits are delivered too (own stream of choices, so that
